@@ -9,8 +9,12 @@
   * `darr_bounded`     : a dynamic array that decodes has at most max(cap, |block|/32) children: its size is bounded
                          by the data supplied (or by the fixed cap for elements with an empty encoding), never by the
                          magnitude of the count word.
-  Serialisation of a returned tree and decode∘encode∘decode stability are checked by the correspondence run
-  (serialisers and the encoder are modelled, but the statements are not proved here).
+  * `decode_serialisable` : a returned tree can be serialised in every formatting mode with every serializer.
+  * `decode_shape`     : a returned tree is a value tree of the definition's type (array lengths, one member per tuple
+                         component, unsigned integers below 2^m, signed within 256 bits, bytes<M> of exactly M bytes).
+  decode∘encode∘decode stability is checked by the correspondence run (the encoder is modelled, C02/C03 prove
+  decode∘encode = id on well-typed values, but a decoded `bool` word other than 0/1 is outside `WellTyped`, so the
+  statement over arbitrary returned trees is not proved here).
 -/
 import FFS.Model.AbiIO
 import FFS.Props.C03
@@ -782,6 +786,285 @@ mutual
           obtain ⟨kvs, hk⟩ := decodeList_serialisable cfg ts names block hs (hp + r0) rs cs' (i + 1) (by simpa using hl) ht.2 hrest
           exact ⟨_, by rw [outEach, hj]; simp only []; rw [hk]; rfl⟩
 end
+
+/-! ### a returned tree has the shape of its type -/
+
+
+/-- what an elementary decoder may return: the value kind of its codec, unsigned integers below `2^m`, signed integers
+    within 256 bits, fixed-width byte strings of exactly `m` bytes -/
+def ElemShape (info : ElemInfo) (m : Nat) (v : CV) : Prop :=
+  match codecOf info.dec with
+  | .sint => ∃ z : Int, v = .int z ∧ -(2 : Int) ^ 255 ≤ z ∧ z < 2 ^ 255
+  | .uint => ∃ z : Int, v = .int z ∧ 0 ≤ z ∧ z < 2 ^ (8 * (m / 8))
+  | .bytes => ∃ b, v = .bytes b ∧ (m = 0 ∨ b.length = m)
+  | .string => ∃ b, v = .str b ∧ (m = 0 ∨ b.length = m)
+  | .float => False
+
+mutual
+  def Shape : Ty → CV → Prop
+    | .elem info _ m _, v => ElemShape info m v
+    | .farr t k, v => ∃ cs, v = .kids cs ∧ cs.length = k ∧ ∀ c ∈ cs, Shape t c
+    | .darr t, v => ∃ cs, v = .kids cs ∧ ∀ c ∈ cs, Shape t c
+    | .tuple _ ts, v => ∃ cs, v = .kids cs ∧ ShapeEach ts cs
+  def ShapeEach : List Ty → List CV → Prop
+    | [], [] => True
+    | t :: ts, c :: cs => Shape t c ∧ ShapeEach ts cs
+    | _, _ => False
+end
+
+theorem decodeRepeat_length (dec : Nat → Nat → Outcome (Nat × CV)) :
+    ∀ (n hs hp r : Nat) (cs : List CV), decodeRepeat dec n hs hp = .ok (r, cs) → cs.length = n := by
+  intro n
+  induction n with
+  | zero =>
+    intro hs hp r cs h
+    simp only [decodeRepeat] at h
+    injection h with h; injection h with _ h2
+    subst h2; rfl
+  | succ k ih =>
+    intro hs hp r cs h
+    simp only [decodeRepeat] at h
+    cases hdec : dec hs hp with
+    | err => rw [hdec] at h; cases h
+    | panic => rw [hdec] at h; cases h
+    | ok p =>
+      obtain ⟨r0, c0⟩ := p
+      rw [hdec] at h
+      simp only [] at h
+      cases hrest : decodeRepeat dec k hs (hp + r0) with
+      | err => rw [hrest] at h; cases h
+      | panic => rw [hrest] at h; cases h
+      | ok q =>
+        obtain ⟨rs, cs'⟩ := q
+        rw [hrest] at h
+        simp only [] at h
+        injection h with h; injection h with _ h2
+        subst h2
+        simp [ih hs (hp + r0) rs cs' hrest]
+
+theorem slice?_length {xs : Bytes} {lo hi : Nat} {w : Bytes} (h : slice? xs lo hi = .ok w) : w.length = hi - lo := by
+  unfold slice? at h
+  split at h
+  · rename_i hc
+    injection h with h
+    subst h
+    simp only [List.length_take, List.length_drop]
+    omega
+  · cases h
+
+theorem parseInt256_range (w : Bytes) (hl : w.length = 32) : -(2 : Int) ^ 255 ≤ parseInt256 w ∧ parseInt256 w < 2 ^ 255 := by
+  have hlt := fromBE_lt w
+  rw [hl] at hlt
+  have h256 : (256 : Nat) ^ 32 = 2 ^ 256 := by decide
+  rw [h256] at hlt
+  unfold parseInt256
+  simp only []
+  have hcast : ((fromBE w : Nat) : Int) < 2 ^ 256 := by exact_mod_cast hlt
+  have hnn : (0 : Int) ≤ (fromBE w : Nat) := Int.natCast_nonneg _
+  have hp : (2 : Int) ^ 256 = 2 ^ 255 + 2 ^ 255 := by decide
+  split
+  · constructor
+    · have : -(2 : Int) ^ 255 ≤ 0 := by decide
+      omega
+    · assumption
+  · constructor <;> omega
+
+/-- the elementary decoders return a value of the shape of the type -/
+theorem decodeElem_shape (info : ElemInfo) (m : Nat) (block : Bytes) (hs hp : Nat) (v : CV)
+    (h : decodeElem info m block hs hp = .ok v) : ElemShape info m v := by
+  unfold decodeElem at h
+  unfold ElemShape
+  cases hc : codecOf info.dec <;> rw [hc] at h <;> simp only [] at h ⊢
+  case uint =>
+    split at h
+    · cases h
+    · rename_i hlen
+      cases hsl : slice? block (hp + (32 - m / 8)) (hp + 32) with
+      | ok w =>
+        rw [hsl] at h; simp only [Outcome.bind] at h; injection h with h
+        have hwl := slice?_length hsl
+        have hlt := fromBE_lt w
+        refine ⟨_, h.symm, Int.natCast_nonneg _, ?_⟩
+        have hle : w.length ≤ m / 8 := by omega
+        have : fromBE w < 2 ^ (8 * (m / 8)) := by
+          calc fromBE w < 256 ^ w.length := hlt
+            _ ≤ 256 ^ (m / 8) := Nat.pow_le_pow_right (by decide) hle
+            _ = 2 ^ (8 * (m / 8)) := by rw [show (256 : Nat) = 2 ^ 8 by decide, ← Nat.pow_mul]
+        exact_mod_cast this
+      | err => rw [hsl] at h; cases h
+      | panic => rw [hsl] at h; cases h
+  case sint =>
+    split at h
+    · cases h
+    · cases hsl : slice? block hp (hp + 32) with
+      | ok w =>
+        rw [hsl] at h; simp only [Outcome.bind] at h; injection h with h
+        have hwl := slice?_length hsl
+        have := parseInt256_range w (by omega)
+        exact ⟨_, h.symm, this.1, this.2⟩
+      | err => rw [hsl] at h; cases h
+      | panic => rw [hsl] at h; cases h
+  case bytes =>
+    split at h
+    · rename_i hm
+      split at h
+      · split at h
+        · split at h
+          · cases h
+          · injection h with h; simp at h; exact ⟨_, h.symm, Or.inl hm⟩
+        · cases h
+        · cases h
+      · cases h
+      · cases h
+    · split at h
+      · cases h
+      · rename_i hlen
+        injection h with h
+        simp at h
+        refine ⟨_, h.symm, Or.inr ?_⟩
+        simp only [List.length_take, List.length_drop]; omega
+  case string =>
+    split at h
+    · rename_i hm
+      split at h
+      · split at h
+        · split at h
+          · cases h
+          · injection h with h; simp at h; exact ⟨_, h.symm, Or.inl hm⟩
+        · cases h
+        · cases h
+      · cases h
+      · cases h
+    · split at h
+      · cases h
+      · rename_i hlen
+        injection h with h
+        simp at h
+        refine ⟨_, h.symm, Or.inr ?_⟩
+        simp only [List.length_take, List.length_drop]; omega
+  case float =>
+    cases h
+
+
+mutual
+  /-- **A returned tree is a value tree of the definition's type**: whatever `decode` returns, from any bytes, has the
+      shape of the type — fixed arrays have exactly `k` members, tuples one member per component, unsigned integers lie
+      below `2^m`, signed integers within 256 bits, `bytes<M>` values have exactly `M` bytes. -/
+  theorem decode_shape : ∀ (t : Ty) (block : Bytes) (hs hp r : Nat) (v : CV),
+      decode t block hs hp = .ok (r, v) → Shape t v
+    | .elem info sfx m n, block, hs, hp, r, v => by
+      intro h
+      unfold decode at h
+      cases hd : decodeElem info m block hs hp with
+      | err => rw [hd] at h; cases h
+      | panic => rw [hd] at h; cases h
+      | ok v' =>
+        rw [hd] at h
+        simp only [] at h
+        injection h with h; injection h with _ h2
+        subst h2
+        rw [Shape]
+        exact decodeElem_shape info m block hs hp v' hd
+    | .farr t k, block, hs, hp, r, v => by
+      intro h
+      have hch := fun a b r v hh => decode_shape t block a b r v hh
+      rw [Shape]
+      unfold decode at h
+      split at h
+      · split at h
+        · split at h
+          · rename_i hrep
+            injection h with h; injection h with _ h2
+            exact ⟨_, h2.symm, decodeRepeat_length _ _ _ _ _ _ hrep, decodeRepeat_all _ (decode t block) hch _ _ _ _ _ hrep⟩
+          · cases h
+          · cases h
+        · cases h
+        · cases h
+      · split at h
+        · rename_i hrep
+          injection h with h; injection h with _ h2
+          exact ⟨_, h2.symm, decodeRepeat_length _ _ _ _ _ _ hrep, decodeRepeat_all _ (decode t block) hch _ _ _ _ _ hrep⟩
+        · cases h
+        · cases h
+    | .darr t, block, hs, hp, r, v => by
+      intro h
+      have hch := fun a b r v hh => decode_shape t block a b r v hh
+      rw [Shape]
+      unfold decode at h
+      split at h
+      · split at h
+        · split at h
+          · rename_i hrep
+            injection h with h; injection h with _ h2
+            exact ⟨_, h2.symm, decodeRepeatDyn_all _ (decode t block) _ hch _ _ _ _ _ hrep⟩
+          · cases h
+          · cases h
+        · cases h
+        · cases h
+      · cases h
+      · cases h
+    | .tuple names ts, block, hs, hp, r, v => by
+      intro h
+      rw [Shape]
+      unfold decode at h
+      split at h
+      · split at h
+        · split at h
+          · rename_i hl
+            injection h with h; injection h with _ h2
+            exact ⟨_, h2.symm, decodeList_shape ts block _ _ _ _ hl⟩
+          · cases h
+          · cases h
+        · cases h
+        · cases h
+      · split at h
+        · rename_i hl
+          injection h with h; injection h with _ h2
+          exact ⟨_, h2.symm, decodeList_shape ts block _ _ _ _ hl⟩
+        · cases h
+        · cases h
+  theorem decodeList_shape : ∀ (ts : List Ty) (block : Bytes) (hs hp r : Nat) (cs : List CV),
+      decodeList ts block hs hp = .ok (r, cs) → ShapeEach ts cs
+    | [], block, hs, hp, r, cs => by
+      intro h
+      simp only [decodeList] at h
+      injection h with h; injection h with _ h2
+      subst h2
+      simp [ShapeEach]
+    | t :: ts, block, hs, hp, r, cs => by
+      intro h
+      simp only [decodeList] at h
+      cases hd : decode t block hs hp with
+      | err => rw [hd] at h; cases h
+      | panic => rw [hd] at h; cases h
+      | ok p =>
+        obtain ⟨r0, c0⟩ := p
+        rw [hd] at h
+        simp only [] at h
+        cases hrest : decodeList ts block hs (hp + r0) with
+        | err => rw [hrest] at h; cases h
+        | panic => rw [hrest] at h; cases h
+        | ok q =>
+          obtain ⟨rs, cs'⟩ := q
+          rw [hrest] at h
+          simp only [] at h
+          injection h with h; injection h with _ h2
+          subst h2
+          rw [ShapeEach]
+          exact ⟨decode_shape t block hs hp r0 c0 hd, decodeList_shape ts block hs (hp + r0) rs cs' hrest⟩
+end
+
+/-- the same for a whole parameter list (`DecodeABIData`) -/
+theorem decodeParams_shape (ts : List Ty) (block : Bytes) (offset : Nat) (v : CV)
+    (h : decodeParams ts block offset = .ok v) : ∃ cs, v = .kids cs ∧ ShapeEach ts cs := by
+  unfold decodeParams at h
+  split at h
+  · rename_i hl
+    injection h with h
+    exact ⟨_, h.symm, decodeList_shape ts block _ _ _ _ hl⟩
+  · cases h
+  · cases h
+
 
 /-! ### non-vacuity: concrete inputs on which the hypotheses hold (evaluated by the kernel) -/
 def okB {α : Type} : Outcome α → Bool | .ok _ => true | _ => false
